@@ -45,9 +45,10 @@ PROFILES = {
     "sc":     (["chr", "alt", "star", "ccl"], LETTERS + [10], {"nsc": 2, "p_sc": 0.7}),
     "sc3":    (["chr", "plus", "dot"], LETTERS[:2] + [10], {"nsc": 3, "p_sc": 0.8, "eofs": True}),
     "bol":    (["chr", "alt", "star", "ccl", "dot"], LETTERS[:2] + [10], {"p_bol": 0.5}),
-    "trail":  (["chr", "alt", "star", "plus", "opt", "ccl"], LETTERS + [10], {"p_trail": 0.6, "p_dollar": 0.2}),
+    "trail":  (["chr", "alt", "star", "plus", "opt", "ccl"], LETTERS + [10], {"p_trail": 0.6, "p_dollar": 0.2, "p_bar": 0.25}),
+    "bar":    (["chr", "alt", "plus", "ccl"], LETTERS + [10], {"p_trail": 0.5, "p_dollar": 0.1, "p_bar": 0.5, "p_bol": 0.2}),
     "anch":   (["chr", "plus", "star", "ccl", "alt"], LETTERS[:2] + [10], {"p_trail": 0.4, "p_dollar": 0.3, "p_bol": 0.4, "nsc": 1, "p_sc": 0.4}),
-    "mix":    (None, LETTERS + [10, 0, 65, 200, 34], {"p_trail": 0.25, "p_dollar": 0.1, "p_bol": 0.2, "nsc": 2, "p_sc": 0.4, "ndefs": 1, "eofs": True}),
+    "mix":    (None, LETTERS + [10, 0, 65, 200, 34], {"p_trail": 0.25, "p_dollar": 0.1, "p_bol": 0.2, "nsc": 2, "p_sc": 0.4, "ndefs": 1, "eofs": True, "p_bar": 0.15}),
 }
 
 
@@ -101,6 +102,11 @@ def gen_ruleset(rng, profile, name=""):
     # keep <<EOF>> rules in their relative order
     idx = [i for i, e in enumerate(layout) if e[0] == "eof"]
     for n, i in enumerate(idx): layout[i] = ["eof", n + 1]
+    # '|' actions: a rule shares the action of the rule that follows it in the file
+    for i, e in enumerate(layout[:-1]):
+        # (not on a rule that itself has trailing context: known finding bar-after-trailing-context)
+        if e[0] == "rule" and layout[i + 1][0] == "rule" and rules[e[1] - 1]["trail"] == NONE and rng.random() < o.get("p_bar", 0):
+            rules[e[1] - 1]["bar"] = True
     rs = ruleset(rules, scs, ci=ci, sevenbit=seven, defs=defs, eofs=eofs, layout=layout, name=name)
     rs["profile"] = profile
     if o.get("posix"): rs["posix"] = True
@@ -159,6 +165,10 @@ def handwritten():
     out.append(ruleset([
         rule(P.plus(c(97)), P.cat(P.plus(c(98)), c(99))), rule(P.cat(P.plus(c(97)), P.plus(c(98)), c(99))),
         rule(P.plus(c(97))), rule(P.alt(P.dot(), c(10)))], name="hw-vartrail-reject"))
+    bar1 = rule(L("abc")); bar1["bar"] = True
+    bar2 = rule(L("gh")); bar2["bar"] = True
+    out.append(ruleset([bar1, rule(L("de"), P.plus(c(102))), bar2, rule(L("ij"), L("kl")), rule(P.plus(P.ccl([P.cr(97, 122)]))), rule(c(10))],
+                       name="hw-bar-trailing"))
     out.append(ruleset([
         rule(L("x"), bol=True), rule(L("y"), scs=[2]), rule(L("z"), scs=[3]), rule(P.alt(P.dot(), c(10)), scs=[0])],
         scs=[("A", False), ("B", True)], eofs=[[1], [3], []],
